@@ -1,3 +1,5 @@
+use std::cmp;
+
 use crate::{
     catch::{CatchGradualDifficulty, CatchPerformanceAttributes, CatchScoreState},
     model::mode::ConvertError,
@@ -117,6 +119,9 @@ impl CatchGradualPerformance {
     /// `n=1` will process 2, and so on.
     #[allow(clippy::missing_panics_doc)]
     pub fn nth(&mut self, state: CatchScoreState, n: usize) -> Option<CatchPerformanceAttributes> {
+        // Process all remaining objects if `n` exceeds their amount
+        let n = cmp::min(n, self.difficulty.len().saturating_sub(1));
+
         let performance = self
             .difficulty
             .nth(n)?
